@@ -372,10 +372,23 @@ def shards(tier):
                 out.append({"cls": "lod", "fmt": "csv", "suffix": suffix, "n": n, "tier": tier, "encoding": enc})
                 out.append({"cls": "lod", "fmt": "json", "suffix": suffix, "n": n, "tier": tier, "encoding": enc})
             out.append({"cls": "lod", "fmt": "pickle", "suffix": suffix, "n": n, "tier": tier})
+    # size ladder: files larger than the readers' block size (Arrow reads CSV in 1 MiB blocks)
+    for suffix in ("", ".gz"):
+        out.append({"cls": "big", "suffix": suffix, "rows": 3000 if tier == "quick" else 30000, "tier": tier})
+    out.append({"cls": "big", "suffix": "", "rows": 20000, "tier": tier})
     return out
 
 
 def run_shard(shard, rec):
+    if shard["cls"] == "big":
+        for fmt, opts in (("csv", {"sep": ",", "header": True, "encoding": "utf-8"}), ("csv", {"sep": ";", "header": False, "encoding": "utf-8"}),
+                          ("parquet", {}), ("pickle", {}), ("json", {"encoding": "utf-8"})):
+            big = {"rows": shard["rows"]}
+            case = {"cls": "df", "fmt": fmt, "suffix": shard["suffix"], "opts": opts, "big": big}
+            if fmt == "csv" and not opts["header"]:
+                case["generated_names"] = True
+            check_case(case, rec)
+        return
     fmt, suffix, n, tier = shard["fmt"], shard["suffix"], shard["n"], shard["tier"]
     if shard["cls"] == "df":
         if fmt == "csv":
@@ -585,8 +598,44 @@ def check_case(case, rec):
 # ---------------------------------------------------------------------------
 # narrow classifiers (named predicates over the failing case), for known_findings.json
 
+def big_cols(spec):
+    """A frame whose CSV is larger than 1 MiB, with line breaks inside quoted values (compact case, expanded here)."""
+    n = spec["rows"]
+    return [["k", "i8", list(range(n))],
+            ["s", "str", [f"line {i} begins\nand goes on for a while {'x' * 40} {i}" for i in range(n)]],
+            ["f", "f8", [None if i % 97 == 0 else repr(i / 8) for i in range(n)]]]
+
+
+class _CompactCase:
+    def __init__(self, rec, case):
+        self.rec, self.compact = rec, case
+
+    def __getattr__(self, name):
+        return getattr(self.rec, name)
+
+    def violation(self, op, clause, case, detail="", cls=None):
+        return self.rec.violation(op, clause, self.compact, detail, cls if cls is not None else "large-file")
+
+    def sample(self, case, every=1):
+        return self.rec.sample(self.compact)
+
+
+_check_small = check_case
+
+
+def check_case(case, rec):  # noqa: F811
+    if "big" in case:
+        cols = big_cols(case["big"])
+        if case.get("generated_names"):
+            cols = with_generated_names(cols)
+        return _check_small(dict(case, cols=cols), _CompactCase(rec, case))
+    return _check_small(case, rec)
+
+
 def classify(v):
     c = v["case"]
+    if "big" in c:
+        return None
     op, clause = v["op"], v["clause"]
     fmt, suffix, opts = c["fmt"], c["suffix"], c["opts"]
     enc = opts.get("encoding", "utf-8")
